@@ -144,7 +144,7 @@ theorem applyRec_frame (c : Cfg) (p : Idx) (pos : Pos) (h : Hdr) (init : Bool) :
                     p.updateHeaderMetadata (Idx.mkRow h2 pos.recd pos.blk pos.recd pos.blk)
                   else
                     match p.getHeader o with
-                    | (q', .ok old) => q'.updateHeaderMetadata (Idx.mkRow h2 old.recd old.blk pos.recd pos.blk)
+                    | (q', .ok old) => q'.updateHeaderMetadata (Idx.mkRow (if (h2.pax.get recSTFSRecordUncompressedSize).isNone then { h2 with size := old.hdr.size } else h2) old.recd old.blk pos.recd pos.blk)
                     | (q', .error _) => q').rows := by
                 intro o
                 split
@@ -153,7 +153,7 @@ theorem applyRec_frame (c : Cfg) (p : Idx) (pos : Pos) (h : Hdr) (init : Bool) :
                   · rename_i q' old heq
                     have hq' : q'.rows = p.rows := by
                       have := Idx.getHeader_rows p o; rw [heq] at this; exact this
-                    have := Idx.updateHeaderMetadata_frame q' (Idx.mkRow h2 old.recd old.blk pos.recd pos.blk)
+                    have := Idx.updateHeaderMetadata_frame q' (Idx.mkRow (if (h2.pax.get recSTFSRecordUncompressedSize).isNone then { h2 with size := old.hdr.size } else h2) old.recd old.blk pos.recd pos.blk)
                     rw [hq'] at this
                     exact ⟨_, this⟩
                   · rename_i q' e heq
@@ -168,7 +168,7 @@ theorem applyRec_frame (c : Cfg) (p : Idx) (pos : Pos) (h : Hdr) (init : Bool) :
                     p.updateHeaderMetadata (Idx.mkRow h2 pos.recd pos.blk pos.recd pos.blk)
                   else
                     match p.getHeader o with
-                    | (q', .ok old) => q'.updateHeaderMetadata (Idx.mkRow h2 old.recd old.blk pos.recd pos.blk)
+                    | (q', .ok old) => q'.updateHeaderMetadata (Idx.mkRow (if (h2.pax.get recSTFSRecordUncompressedSize).isNone then { h2 with size := old.hdr.size } else h2) old.recd old.blk pos.recd pos.blk)
                     | (q', .error _) => q') = q at hn1 ⊢
                 obtain ⟨o', n', hm⟩ := Idx.moveHeader_frame q o h2.name pos.recd pos.blk
                 generalize q.moveHeader o h2.name pos.recd pos.blk = x at hm
